@@ -25,6 +25,7 @@ FUNCTIONS = ['msdm.algorithms.pointbasedvalueiteration.point_based_value_iterati
              'msdm.core.pomdp.alphavectorpolicy.AlphaVectorPolicy.action_value', 'msdm.core.pomdp.policy.ValueBasedTabularPOMDPPolicy.action_dist',
              'msdm.algorithms.qmdp.QMDPPolicy.value', 'msdm.algorithms.qmdp.QMDPPolicy.action_value', 'msdm.algorithms.qmdp.QMDP.plan_on']
 ASSUMPTIONS = [
+    'tier U (QMDPPolicy.action_value): belief of any support size, uninterpreted action-value table; the loop header zip(ss, probs) is recognised by its source text',
     'point_based_value_iteration: loop cut by invariant (any number of backups): every new alpha vector is a one-step backup of previous ones for some (action, successor-vector) choice, '
     'its value at its belief is the maximal backup value, and on `break` the change at every belief point is below the threshold',
     'lemma L8 (trusted, Pineau et al. 2003): a vector obtained by k nested backups from 0 is the k-step value of a conditional plan, hence PBVI <= V* + gamma^k*max(0,-Rmin)/(1-gamma); '
@@ -401,7 +402,7 @@ MANIFEST_ENTRY = dict(
           'action_dist (uniform over exactly its maximisers) and QMDPPolicy/QMDP.plan_on (belief-weighted action values of the solved MDP, solver by contract). '
           'The comparison with the optimal POMDP value rests on two trusted lemmas and is additionally bracketed numerically in a run-time tier '
           '(independent depth-limited expectimax with sound leaf bounds); belief-set expansion is checked at run time only.'),
-    note='Bounded skeletons/belief sets (tier B); lemmas L8/L9 trusted; expand_beliefs/_solve bounded run-time stand-in; revealing-observation equality only bracketed.',
+    note='Bounded skeletons/belief sets (tier B); lemmas L8/L9 trusted; expand_beliefs/_solve bounded run-time stand-in; revealing-observation equality only bracketed. Tier U: QMDPPolicy.action_value over a belief of any support size.',
 )
 END_MANIFEST_ENTRY = True
 
